@@ -157,6 +157,14 @@ int64_t cmb_resourceguard_wait(struct cmb_resourceguard *rgp,
     cmi_process_add_awaitable(pp, CMI_PROCESS_AWAITABLE_RESOURCE, rgp);
     cmb_logger_info(stdout, "Waits for %s", rgp->guarded_resource->name);
 
+    /* Whoever is first in line now may never have been evaluated: the one
+     * that was first has just been served (perhaps it is us, lining up again
+     * for the rest of what we need), and the demand of the next one need not
+     * be about the same thing. Ring the bell before going to sleep. */
+    if (!rgp->evaluate_all) {
+        (void)cmb_resourceguard_signal(rgp);
+    }
+
     /* Yield to the dispatcher, collect the return signal value when resumed */
     const int64_t sig = (int64_t)cmi_coroutine_yield(NULL);
 
